@@ -14,7 +14,7 @@ import (
 func init() {
 	register("C16",
 		"that the pillars, term days and day differences the star formulas are fed with are the right ones for every date (numeric: C03, C04, C05); the formulas themselves are decided as decision tables (R16.5).",
-		r16_1, r16_2, r16_3, r16_5)
+		r16_1, r16_2, r16_3, r16_5, r16_6)
 }
 
 func r16_1(c *Ctx, r *Report) {
